@@ -1,6 +1,6 @@
 (* C15 / C12 after the two repairs of /repo:
-     fix <commit15>  Ty::check_template checks the types written in data/codata declarations completely;
-     fix <commit12>  Def::check compares the declared return type of `main` with i64.
+     fix eb42971  Ty::check_template checks the types written in data/codata declarations completely;
+     fix 5b8c76f  Def::check compares the declared return type of `main` with i64.
    (1) Soundness and exactness of the checker WITHOUT the guard [decl_types_wf] (it is now a consequence of
        acceptance, Proof/CheckDecls.v): for identifier-like names the checker decides the typing rules.
    (2) Every `main` of an accepted program returns i64 (all programs, no guard) - what C12's guard
